@@ -213,15 +213,11 @@ def run_tlc_trace(module, trace_path, cfg=None, timeout=3600, env_extra=None, xm
     bad = []
     other = []
     done = None
+    # TLC's pretty-printer breaks tuples longer than the line width over several lines: match across line ends
+    for m in re.finditer(r'<<\s*"BAD",\s*(-?\d+),\s*"([^"]*)"\s*>>', out):
+        bad.append((int(m.group(1)), re.sub(r"\s*\n\s*", " ", m.group(2))))
     for line in out.split("\n"):
-        m = _BAD.search(line)
-        if m:
-            parts = m.group(1)
-            mm = re.match(r'(-?\d+), "(.*)"$', parts)
-            if mm:
-                bad.append((int(mm.group(1)), mm.group(2)))
-            else:
-                bad.append((-1, parts))
+        if _BAD.search(line):
             continue
         m = _DONE.search(line)
         if m:
